@@ -13,8 +13,17 @@
      cur    - the string allocator of SimpleString after the call: "under" = the allocator that was installed before
               the cache was constructed, "cache" = the adaptor of the live global cache, "other" = anything else
      intact - every buffer still handed out holds the bytes its owner wrote (no aliasing seen)
+     nwarn  - number of unknown-release warnings printed since the cache object was constructed, counted when the script
+              call has returned (-1 on lines in the middle of a script call)
+     sl     - index of the script call the line belongs to
    Which idle block is reused is the implementation's choice: the spec only demands an idle block of
-   the request's class or a newly obtained one. *)
+   the request's class or a newly obtained one.
+   Strings that predate a global cache (pnew: created while the previous allocator is installed) are destroyed, assigned
+   to or appended to while the cache is installed (script calls pdel / pset / pcat), optionally with a current test whose
+   output string predates the cache too (gnew 1).  Such a script call is several calls on the adaptor; each is one line,
+   observed by a spy in front of the adaptor: alloc / dealloc (known buffer) / foreign (a pointer the cache did not
+   hand out, no call made meanwhile) / wbegin .. wend (a release of such a pointer during which further calls arrived:
+   the lines in between).  `end' closes an execution. *)
 EXTENDS StrCache, Json, IOUtils, SequencesExt
 VARIABLE l
 tvars == <<vars, l>>
@@ -33,6 +42,7 @@ TAlloc == IF E.got = <<>>
 
 ObsOK(lst, fr, lf, sa) ==
          /\ lst.mem = E.mem /\ lst.warn = E.warn /\ E.cur = sa
+         /\ (E.nwarn >= 0 => E.nwarn = nwarn' /\ printing' = 0)
          /\ lst.got = SetOf(E.got) /\ NoDup(E.got)
          /\ lst.ret = SetOf(E.ret) /\ NoDup(E.ret)
          /\ E.intact
@@ -50,26 +60,31 @@ TCalls == \/ Is("new") /\ Construct("bare", SetOf(E.got))
           \/ Is("snew") /\ life = "global" /\ E.n > 0 /\ TAlloc
           \/ Is("sdel") /\ life = "global" /\ E.mem \in DOMAIN req /\ E.n = req[E.mem] /\ Dealloc(E.mem, E.n)
           \/ Is("foreign") /\ DeallocUnknown
+          \/ Is("wbegin") /\ WarnBegin
+          \/ Is("wend") /\ WarnEnd
           \/ Is("clearcache") /\ life = "bare" /\ ClearCache
           \/ Is("clearall") /\ life = "bare" /\ ClearAll
-TNext == TCalls /\ ObsOK(last', free', life', salloc')
+\* lines that are no call on the cache: a string created from the previous allocator before the cache exists; end of execution
+TOther == \/ Is("pnew") /\ life = "none" /\ E.cur = "under" /\ UNCHANGED vars
+          \/ Is("end") /\ printing = 0 /\ UNCHANGED vars
+TNext == (TCalls /\ ObsOK(last', free', life', salloc')) \/ TOther
 \* executions are concatenated with reset lines (fresh cache, fresh underlying allocator)
 TReset == /\ Is("reset") /\ free' = [c \in ClassMax |-> <<>>] /\ used' = [c \in ClassMax |-> <<>>] /\ uncached' = <<>>
           /\ warned' = FALSE /\ under' = {} /\ nid' = 1 /\ req' = <<>> /\ last' = Outcome("init", 0, FALSE, {}, {})
-          /\ life' = "none" /\ salloc' = "under" /\ base' = {}
+          /\ life' = "none" /\ salloc' = "under" /\ base' = {} /\ printing' = 0 /\ nwarn' = 0
 TSpec == TInit /\ [][TNext \/ TReset]_tvars
 Accepted == TLCGet("stats").diameter - 1 = Len(Tr)
 TInv == /\ NoAlias /\ HandedOutExact /\ BigEnough /\ ClassStable /\ UnderExact
         /\ AllBackAfterClearAll /\ IdleBackAfterClearCache /\ WarnImpliesWarned
-        /\ AllBackAfterDestroy /\ InstalledIffGlobal
+        /\ AllBackAfterDestroy /\ InstalledIffGlobal /\ OneWarning /\ NoNestedWarning
 
 \* diagnostics: the same walk without binding the observations; prints the state the spec is in
-PNext == TCalls
+PNext == TCalls \/ TOther
 PSpec == TInit /\ [][PNext \/ TReset]_tvars
 Mems(s) == [i \in 1..Len(s) |-> s[i].mem]
 Predict == (l > 1 /\ l - 1 >= atoi(IOEnv.FROM_LINE_N)) =>
               PrintT(<<"BEH", ToJson([line |-> l - 1, free |-> [k \in 1..Len(Bounds) |-> Mems(free[Bounds[k]])],
                                       used |-> [k \in 1..Len(Bounds) |-> Mems(used[Bounds[k]])], uncached |-> Mems(uncached),
                                       warned |-> warned, under |-> under, last |-> last,
-                                      life |-> life, salloc |-> salloc])>>)
+                                      life |-> life, salloc |-> salloc, printing |-> printing, nwarn |-> nwarn])>>)
 =============================================================================
